@@ -33,7 +33,8 @@ PROPERTY = "C17"
 LEVEL = "exploration"
 
 MAXK = 4            # longest learned pattern in any family (m <= 4)
-MON_CAP = 64        # clean-up is run when the number of initial monitors is <= MON_CAP
+MON_CAP = 16        # clean-up is run on the outputs with <= MON_CAP initial monitors and
+PATT_CAP = 12       # <= PATT_CAP learned patterns (its monitor pruning is quadratic in the monitors)
 
 
 _LIB = []
@@ -50,21 +51,6 @@ def _lib():
 
 def quiet():
     return contextlib.redirect_stdout(io.StringIO())
-
-
-def timed(fn):
-    """Adds the CPU time of a shard to the counter cpu_ms (wall time says little on a shared box)."""
-    import functools
-    import time
-
-    @functools.wraps(fn)
-    def wrapper(shard):
-        t0 = time.process_time()
-        res = fn(shard)
-        part = res[0] if isinstance(res, tuple) else res
-        part.bump("cpu_ms", int(1000 * (time.process_time() - t0)))
-        return res
-    return wrapper
 
 
 # --------------------------------------------------------------------------------------------
@@ -318,8 +304,8 @@ def check_case(part, A, m, n, U, kinds=KINDS):
         mon = 1
         for shs in SG[kmin].values():
             mon *= len(shs)
-        if mon > MON_CAP:
-            part.bump("cleanup_skipped_initial_monitors_gt_%d" % MON_CAP)
+        if mon > MON_CAP or len(learned) > PATT_CAP:
+            part.bump("cleanup_not_run_on_large_outputs")
         else:
             flatN = set(flatten(N))
             for lim in (0, k0, k0 + 1):
@@ -383,8 +369,6 @@ def run_cases(cases, all_kinds_always=False):
     """cases: iterable of (A, m, n).  Returns (Partial, set of learned (pattern, shadings)).
     The other input representations are compared at every m (subsets3) or at m = min(2, n)
     (the larger families: the normalisation of the input does not depend on m)."""
-    import time
-    t0 = time.process_time()
     part = Partial()
     entries = set()
     for A, m, n in cases:
@@ -400,7 +384,6 @@ def run_cases(cases, all_kinds_always=False):
         if nt:
             part.sample({"A": A, "m": m, "n": n, "learned": [[p, sorted(H)] for _, p, H in learned]},
                         cap=1)
-    part.bump("cpu_ms", int(1000 * (time.process_time() - t0)))
     return part, entries
 
 
@@ -476,10 +459,60 @@ def shard_n4(shard):
     return run_cases(cases)
 
 
-def f12_member(A, n, quick):
-    """Is the input (A cut at n, n) already enumerated by subsets3 / n4?"""
+def n5_lowers():
+    """The parts of length <= 4 of the n5 family: nothing, everything, Av(p) for p in S2 u S3."""
+    low = [(), tuple(R.perms_upto(4))]
+    for p in R.perms(2) + R.perms(3):
+        low.append(tuple(t for t in R.perms_upto(4) if not R.contains(t, p)))
+    return low
+
+
+def n5_sizes(quick):
+    return (1,) if quick else (1, 119, 120)
+
+
+def n5_ms(quick):
+    return (2, 3, 4) if quick else (1, 2, 3, 4)
+
+
+def n5_subsets(sizes):
+    S5 = R.perms(5)
+    out = []
+    for r in sizes:
+        if r == 1:
+            out.extend((p,) for p in S5)
+        elif r == 119:
+            out.extend(tuple(q for q in S5 if q != p) for p in S5)
+        elif r == 120:
+            out.append(tuple(S5))
+        else:
+            raise ValueError(r)
+    return out
+
+
+def shard_n5(shard):
+    li, lo, hi, quick = shard
+    low = n5_lowers()[li]
+    cases = []
+    for sub in n5_subsets(n5_sizes(quick))[lo:hi]:
+        for m in n5_ms(quick):
+            cases.append((low + sub, m, 5))
+    return run_cases(cases)
+
+
+_LOW5 = []
+
+
+def f12_member(A, m, n, quick):
+    """Is the input (A cut at n, m, n) already enumerated by subsets3 / n4 / n5?"""
     if n <= 3:
         return True
+    if n == 5:
+        if not _LOW5:
+            _LOW5.append(set(n5_lowers()))
+        s5 = sum(1 for p in A if len(p) == 5)
+        return (s5 in n5_sizes(quick) and m in n5_ms(quick)
+                and tuple(p for p in A if len(p) <= 4) in _LOW5[0])
     if n > 4:
         return False
     s4 = sum(1 for p in A if len(p) == 4)
@@ -522,6 +555,31 @@ NAMED = {
 }
 
 
+# shipped predicates, used only to DEFINE further input sets (any set is a legitimate input)
+LIB_NAMED = ("dihedral", "in_alternating_group", "yt_perm_avoids_22", "yt_perm_avoids_32",
+             "av_231_and_mesh", "quick_sortable")
+
+
+def lib_named_sets(nmax):
+    """{name: members of length <= nmax} for the shipped predicates that exist."""
+    import importlib
+    Perm = _lib()[0]
+    out = {}
+    try:
+        pp = importlib.import_module("permuta.bisc.perm_properties")
+    except Exception:  # noqa
+        pp = None
+    for name in LIB_NAMED:
+        f = getattr(pp, name, None) or getattr(Perm, name, None)
+        if f is None:
+            continue
+        try:
+            out[name] = tuple(t for t in R.perms_upto(nmax) if f(Perm(t)))
+        except Exception:  # noqa
+            continue
+    return out
+
+
 def named_member(name, t):
     d = NAMED[name]
     if name == "west_2_stack_sortable":
@@ -538,31 +596,38 @@ def class_upto(basis, n):
 
 
 def classes_plan(quick):
-    """list of (label, basis, [(m, n)...])"""
+    """list of (basis, co, [(m, n)...]); co: take the permutations that CONTAIN a basis element."""
     plan = []
     pool23 = R.perms(2) + R.perms(3)
+    pool = pool23 + R.perms(4)
+    cl = [[p] for p in pool] + [list(c) for c in itertools.combinations(pool, 2)]
+    small = [[p] for p in pool23] + [list(c) for c in itertools.combinations(pool23, 2)]
+    m5 = [(1, 5), (2, 5), (3, 5), (4, 5)]
+    for b in cl:
+        plan.append(([(p, ()) for p in b], False, m5))
+    for k in (1, 2):
+        for q in R.perms(k):
+            for s in R.all_shadings(k):
+                plan.append(([(q, tuple(sorted(s)))], False, [(1, 5), (2, 5), (3, 5)]))
     if quick:
-        cl = [[p] for p in pool23 + R.perms(4)] + [list(c) for c in itertools.combinations(pool23, 2)]
-        for b in cl:
-            plan.append(([(p, ()) for p in b], [(3, 5), (4, 5)]))
-        for k in (1, 2):
-            for q in R.perms(k):
-                for s in R.all_shadings(k):
-                    if len(s) <= 1 or len(s) >= (k + 1) ** 2 - 1:
-                        plan.append(([(q, tuple(sorted(s)))], [(3, 5)]))
+        for b in small:
+            plan.append(([(p, ()) for p in b], True, [(3, 5)]))
     else:
-        pool = pool23 + R.perms(4)
-        cl = [[p] for p in pool] + [list(c) for c in itertools.combinations(pool, 2)]
         for b in cl:
-            plan.append(([(p, ()) for p in b], [(1, 5), (2, 5), (3, 5), (4, 5)]))
-        for b in [[p] for p in pool23] + [list(c) for c in itertools.combinations(pool23, 2)]:
-            plan.append(([(p, ()) for p in b], [(3, 6), (4, 6)]))
+            plan.append(([(p, ()) for p in b], True, m5))
+        for b in small:
+            plan.append(([(p, ()) for p in b], False, [(3, 6), (4, 6)]))
+            plan.append(([(p, ()) for p in b], True, [(3, 6)]))
         for k in (1, 2):
             for q in R.perms(k):
                 for s in R.all_shadings(k):
-                    plan.append(([(q, tuple(sorted(s)))], [(1, 5), (2, 5), (3, 5)]))
+                    plan.append(([(q, tuple(sorted(s)))], True, [(2, 5), (3, 5)]))
                     if len(s) <= 2 or len(s) >= (k + 1) ** 2 - 2:
-                        plan.append(([(q, tuple(sorted(s)))], [(3, 6)]))
+                        plan.append(([(q, tuple(sorted(s)))], False, [(3, 6), (4, 6)]))
+        for q in R.perms(3):
+            for s in R.all_shadings(3):
+                if len(s) in (1, 2):
+                    plan.append(([(q, tuple(sorted(s)))], False, [(3, 5), (4, 5)]))
     return plan
 
 
@@ -575,7 +640,7 @@ def build_class_cases(quick):
 
     def put(A, m, n, label):
         A = tuple(p for p in A if len(p) <= n)
-        if not A or f12_member(A, n, quick):
+        if not A or f12_member(A, m, n, quick):
             return
         key = (A, m, n)
         if key in seen:
@@ -585,20 +650,23 @@ def build_class_cases(quick):
         labels[key] = label
 
     cache = {}
-    for basis, mns in classes_plan(quick):
+    for basis, co, mns in classes_plan(quick):
         bkey = tuple(basis)
         nmax = max(n for _, n in mns)
         if bkey not in cache or cache[bkey][0] < nmax:
-            cache[bkey] = (nmax, class_upto(basis, nmax))
-        A = cache[bkey][1]
+            cache[bkey] = (nmax, set(class_upto(basis, nmax)))
+        av = cache[bkey][1]
+        A = tuple(t for t in R.perms_upto(nmax) if (t in av) != co)
         for m, n in mns:
             put(A, m, n, "class")
     nnamed = 0
-    for name in sorted(NAMED):
-        A6 = tuple(t for t in R.perms_upto(6) if named_member(name, t))
+    named_sets = {name: tuple(t for t in R.perms_upto(6) if named_member(name, t)) for name in NAMED}
+    named_sets.update(lib_named_sets(6))
+    for name in sorted(named_sets):
+        A6 = named_sets[name]
         for n in range(1, 7):
             for m in range(1, min(4, n) + 1):
-                if quick and (m, n) not in ((2, 5), (3, 5), (4, 5), (3, 6)):
+                if quick and (m, n) not in ((2, 5), (3, 5), (4, 5), (3, 6), (4, 6)):
                     continue
                 before = len(cases)
                 put(A6, m, n, name)
@@ -678,7 +746,6 @@ def mesh_pool(k, limit=None):
     return out
 
 
-@timed
 def shard_priv_perm(shard):
     """single shadings: every mesh pattern of the pool x every text of the lengths."""
     k, lo, hi, tlens, limit = shard
@@ -695,7 +762,6 @@ def shard_priv_perm(shard):
 _ENTRIES = []
 
 
-@timed
 def shard_priv_learned(shard):
     """learned entries (pattern, list of shadings) x every text."""
     lo, hi, tmax = shard
@@ -709,7 +775,6 @@ def shard_priv_learned(shard):
     return part
 
 
-@timed
 def shard_priv_mesh(shard):
     kp, lo, hi, plimit, kq, qlimit = shard
     part = Partial()
@@ -722,7 +787,6 @@ def shard_priv_mesh(shard):
     return part
 
 
-@timed
 def shard_priv_mesh_two(shard):
     """two shadings of the small pattern (the answer is the disjunction)."""
     kp, lo, hi, plimit, kq = shard
@@ -738,7 +802,6 @@ def shard_priv_mesh_two(shard):
     return part
 
 
-@timed
 def shard_priv_maximal(shard):
     n, lo, hi = shard
     part = Partial()
@@ -758,12 +821,15 @@ def chunks(total, per):
 # auto_bisc
 # --------------------------------------------------------------------------------------------
 
-class NoAnswer(Exception):
+class NoAnswer(BaseException):
     pass
 
 
-AUTO_MAXLEN = 8       # the driver may look at permutations up to this length
+AUTO_MAXLEN = 8       # the driver is checked on permutations up to this length
+AUTO_MAX_N = 6        # ... and may learn from permutations up to this length (all listed predicates
+                      # are answered with n <= 6 on the unchanged tree)
 AUTO_MAXCLEAN = 400   # calls of run_clean_up
+AUTO_CPU_S = 90       # CPU-seconds for one auto_bisc call (the slowest listed one needs about 6)
 
 
 def auto_members(spec):
@@ -829,8 +895,8 @@ def call_auto(form, members):
     real_bisc, real_clean = B.bisc, B.run_clean_up
 
     def guarded_bisc(A, m, n=None, report=False):
-        if n is not None and n + 1 > AUTO_MAXLEN:
-            raise NoAnswer("driver asks for permutations of length %d" % (n + 1))
+        if n is not None and n > AUTO_MAX_N:
+            raise NoAnswer("driver wants to learn from permutations of length %d" % n)
         return real_bisc(A, m, n, report)
 
     def guarded_clean(*a, **kw):
@@ -856,11 +922,20 @@ def call_auto(form, members):
         arg = (A, Bd)
     else:
         raise ValueError(form)
+    import signal
+
+    def out_of_time(sig, frm):
+        raise NoAnswer("no answer within %d CPU-seconds" % AUTO_CPU_S)
+
     B.bisc, B.run_clean_up = guarded_bisc, guarded_clean
+    old_handler = signal.signal(signal.SIGPROF, out_of_time)
+    signal.setitimer(signal.ITIMER_PROF, AUTO_CPU_S)     # CPU time of this process, not wall time
     try:
         with quiet():
             return B.auto_bisc(arg)
     finally:
+        signal.setitimer(signal.ITIMER_PROF, 0)
+        signal.signal(signal.SIGPROF, old_handler)
         B.bisc, B.run_clean_up = real_bisc, real_clean
 
 
@@ -898,7 +973,6 @@ def check_auto(part, spec, form):
     return N
 
 
-@timed
 def shard_auto(shard):
     spec, form = shard
     part = Partial()
@@ -948,69 +1022,70 @@ def run(ctx, only=None):
         "irredundancy is the property's: dropping a cell makes the pattern occur in a member of A "
         "(length <= n) or mesh-contain a shorter learned pattern; minimality of the whole output "
         "is not demanded",
-        "auto_bisc: a driver that does not return within permutations of length 8 / 400 clean-up "
-        "rounds on the listed predicates (all converge on the unchanged tree) is reported",
+        "auto_bisc: a driver that does not answer by learning from permutations of length <= 6, "
+        "within 400 clean-up rounds and 90 CPU-seconds on the listed predicates (all are answered on the unchanged tree) "
+        "is reported (sub-check auto_no_answer)",
     ]
     entries = set()
+    jobs = []          # (family, function name, shard); one pool runs them all (phase A)
 
-    if want("subsets3"):
-        e0 = ctx.evals
-        for U in (2, 3, 4, 5):
-            table(U)
-        shards = [(lo, hi, 4) for lo, hi in chunks(1 << 10, 16) if hi > 1]
-        shards[0] = (1, shards[0][1], 4)
-        for pl in ctx.pmap(shard_subsets3, shards):
-            entries |= pl
-        ctx.bounds["subsets3"] = "all 1023 non-empty subsets of S<=3 x all 1<=m<=n<=4 (10 bound pairs)"
-        ctx.section("subsets3", evaluations=ctx.evals - e0)
+    if want("auto"):
+        _profiles()
+        plan = auto_plan(quick)
+        jobs += [("auto", "shard_auto", sh) for sh in plan]
     if want("n4"):
-        e0 = ctx.evals
         table(5)
-        shards = []
         for mask, sizes in n4_plan(quick):
             total = len(s4_subsets(sizes))
             for lo, hi in chunks(total, 76 if quick else total):
-                shards.append((mask, sizes, lo, hi))
-        for pl in ctx.pmap(shard_n4, shards):
-            entries |= pl
+                jobs.append(("n4", "shard_n4", (mask, sizes, lo, hi)))
         ctx.bounds["n4"] = ("n=4, m=1..4; S<=3-part in {nothing, everything, Av(p) for p in S2 u S3} x "
                             "S4-subsets of size 1,2,22,23,24"
                             + ("" if quick else "; every one of the 1024 S<=3-parts x S4-subsets of size 1,23,24"))
-        ctx.section("n4", evaluations=ctx.evals - e0)
+    if want("n5"):
+        table(5)
+        total = len(n5_subsets(n5_sizes(quick)))
+        jobs += [("n5", "shard_n5", (li, lo, hi, quick)) for li in range(10)
+                 for lo, hi in chunks(total, 24)]
+        ctx.bounds["n5"] = ("n=5, m in %s; part of length<=4 in {nothing, everything, Av(p) for p in "
+                            "S2 u S3} x S5-subsets of size %s" % (list(n5_ms(quick)), list(n5_sizes(quick))))
+    if want("subsets3"):
+        for U in (2, 3, 4, 5):
+            table(U)
+        shards = [(lo, hi, 4) for lo, hi in chunks(1 << 10, 16)]
+        shards[0] = (1, shards[0][1], 4)
+        jobs += [("subsets3", "shard_subsets3", sh) for sh in shards]
+        ctx.bounds["subsets3"] = "all 1023 non-empty subsets of S<=3 x all 1<=m<=n<=4 (10 bound pairs)"
     if want("classes"):
-        e0 = ctx.evals
         table(5)
         table(6)
         _CLASS_CASES, nnamed = build_class_cases(quick)
         per = max(1, len(_CLASS_CASES) // 96)
-        for pl in ctx.pmap(shard_classes, chunks(len(_CLASS_CASES), per)):
-            entries |= pl
+        jobs += [("classes", "shard_classes", sh) for sh in chunks(len(_CLASS_CASES), per)]
         ctx.bounds["classes"] = (
-            "A = class cut at n; quick: Av(p), |p|<=4, Av(p,q), |p|,|q|<=3 at (m,n) in {(3,5),(4,5)}; "
-            "single mesh patterns of length<=2 with <=1 or all-but-<=1 cells at (3,5); "
-            "thorough: all bases of <=2 patterns of length 2..4 at m=1..4, n=5; bases of <=2 patterns "
-            "of length<=3 at (3,6),(4,6); every single mesh pattern of length 1,2 at m=1..3, n=5 "
-            "(and (3,6) for <=2 or all-but-<=2 cells); named families %s at %s; "
-            "distinct inputs not already in subsets3/n4: %d (named: %d)"
-            % (sorted(NAMED), "(2,5),(3,5),(4,5),(3,6)" if quick else "every m<=min(4,n), n<=6",
+            "A = class cut at n (co = the permutations containing a basis element instead); "
+            "all bases of <=2 classical patterns of length 2..4 at m=1..4, n=5; every single mesh "
+            "pattern of length 1,2 (all shadings) at m=1..3, n=5; "
+            + ("co-classes of bases of <=2 patterns of length<=3 at (3,5); "
+               if quick else
+               "co-classes of all of these; bases of <=2 patterns of length<=3 at (3,6),(4,6) and "
+               "their co-classes at (3,6); single mesh patterns of length<=2 with <=2 or all-but-<=2 "
+               "cells at (3,6),(4,6); mesh patterns of length 3 with 1 or 2 cells at (3,5),(4,5); ")
+            + "named families %s at %s; distinct inputs not already in subsets3/n4/n5: %d (named: %d)"
+            % (sorted(NAMED) + ["shipped predicate " + x for x in LIB_NAMED], "(2,5),(3,5),(4,5),(3,6),(4,6)" if quick else "every m<=min(4,n), n<=6",
                len(_CLASS_CASES), nnamed))
-        ctx.section("classes", evaluations=ctx.evals - e0, cases=len(_CLASS_CASES))
+    tl = (0, 1, 2, 3, 4, 5)
+    tmax = 5 if quick else 6
     if want("private"):
-        e0 = ctx.evals
-        shards = [(n, lo, hi) for n in range(0, 6 if quick else 7)
-                  for lo, hi in chunks(len(R.perms(n)), 30)]
-        ctx.pmap(shard_priv_maximal, shards)
+        jobs += [("private", "shard_priv_maximal", (n, lo, hi)) for n in range(0, 6 if quick else 7)
+                 for lo, hi in chunks(len(R.perms(n)), 30)]
         # permutation in mesh pattern
-        tl = (0, 1, 2, 3, 4) if quick else (0, 1, 2, 3, 4, 5)
         shards = [(0, 0, 2, tl, None), (1, 0, 16, tl, None)]
         shards += [(2, lo, hi, tl, None) for lo, hi in chunks(1024, 32)]
+        shards += [(3, lo, hi, (3, 4, 5), 1) for lo, hi in chunks(6 * 34, 12)]
         if not quick:
-            shards += [(3, lo, hi, (3, 4, 5), 1) for lo, hi in chunks(6 * 34, 12)]
-        ctx.pmap(shard_priv_perm, shards)
-        _ENTRIES = sorted(entries, key=lambda e: (len(e[0]), e[0], sorted(map(sorted, e[1]))))
-        tmax = 5 if quick else 6
-        ctx.pmap(shard_priv_learned, [(lo, hi, tmax) for lo, hi in
-                                      chunks(len(_ENTRIES), max(1, len(_ENTRIES) // 64))])
+            shards += [(3, lo, hi, (3, 4, 5), 2) for lo, hi in chunks(len(mesh_pool(3, 2)), 24)]
+        jobs += [("private", "shard_priv_perm", sh) for sh in shards]
         # mesh pattern in mesh pattern
         shards = []
         for kp in (0, 1, 2):
@@ -1023,38 +1098,102 @@ def run(ctx, only=None):
         if quick:
             shards += [(2, lo, hi, None, 2, 1) for lo, hi in chunks(1024, 64)]
             shards += [(3, lo, hi, 1, kq, None) for kq in (0, 1) for lo, hi in chunks(6 * 34, 34)]
+            shards += [(3, lo, hi, 1, 2, 1) for lo, hi in chunks(6 * 34, 34)]
         else:
             total = len(mesh_pool(3, 2))
             shards += [(3, lo, hi, 2, kq, None if kq < 2 else 2) for kq in (0, 1, 2)
                        for lo, hi in chunks(total, 40)]
-        ctx.pmap(shard_priv_mesh, shards)
-        shards = [(kp, lo, hi, None if kp < 2 else 1, kq) for kp in (0, 1, 2) for kq in (0, 1)
-                  if kq <= kp for lo, hi in chunks(len(mesh_pool(kp, None if kp < 2 else 1)), 8)]
-        ctx.pmap(shard_priv_mesh_two, shards)
+        jobs += [("private", "shard_priv_mesh", sh) for sh in shards]
+        jobs += [("private", "shard_priv_mesh_two", (kp, lo, hi, None if kp < 2 else 1, kq))
+                 for kp in (0, 1, 2) for kq in (0, 1) if kq <= kp
+                 for lo, hi in chunks(len(mesh_pool(kp, None if kp < 2 else 1)), 8)]
+
+    payloads = take_violations(ctx, ctx.pmap(shard_any, jobs))
+    auto_res = []
+    for (fam, _, sh), pl in zip(jobs, payloads):
+        if fam == "auto":
+            auto_res.append([sh[0], sh[1], pl])
+        elif fam != "private" and pl:
+            entries |= pl
+
+    def section(name, **info):
+        ctx.section(name, cpu_s=round(ctx.counters.get("cpu_ms_" + name, 0) / 1000.0, 1),
+                    evaluations=ctx.counters.get("evaluations_" + name, 0), **info)
+
+    for fam in ("subsets3", "n4", "n5", "classes"):
+        if want(fam):
+            section(fam)
+    if want("auto"):
+        answers = sum(1 for r in auto_res if r[2] is not None)
+        ctx.bounds["auto"] = {"inputs": [[r[0], r[1]] for r in auto_res],
+                              "checked_on": "every permutation of length <= 8 (46 234)",
+                              "answers": answers}
+        ctx.extra["auto_descriptions"] = auto_res
+        section("auto", answers=answers)
+    if want("private"):
+        # phase B: the learned entries of this run (pattern with all its shadings) x texts
+        _ENTRIES = sorted(entries, key=lambda e: (len(e[0]), e[0], sorted(map(sorted, e[1]))))
+        jobs = [("private", "shard_priv_learned", (lo, hi, tmax))
+                for lo, hi in chunks(len(_ENTRIES), max(1, len(_ENTRIES) // 64))]
+        take_violations(ctx, ctx.pmap(shard_any, jobs))
         ctx.bounds["private"] = {
             "maximal_mesh_pattern_of_occurrence": "every index subset of every text of length <= %d" % (5 if quick else 6),
             "perm_contains_cl_patt(s)_many_shadings": (
-                "every mesh pattern of length <= 2 (all shadings) x texts of length <= %d%s; every "
-                "learned entry (pattern with all its shadings) of this run (%d entries) x texts of "
-                "length <= %d" % (tl[-1], "" if quick else "; length 3 with <=1 or >=15 cells x texts of length 3..5",
-                                  len(_ENTRIES), tmax)),
+                "every mesh pattern of length <= 2 (all shadings) x texts of length <= 5; length 3 with "
+                "<=%d or >=%d cells x texts of length 3..5; every learned entry (pattern with all its "
+                "shadings) of this run (%d entries) x texts of length <= %d"
+                % (1 if quick else 2, 15 if quick else 14, len(_ENTRIES), tmax)),
             "mesh_contains_cl_patt_many_shadings(+_with_positions)": (
                 "(perm,S) x (patt,R): all shadings for |patt| <= |perm| <= 2"
-                + (" except |patt|=|perm|=2 where R has <=1 or >=8 cells; |perm|=3 with <=1/>=15 cells x |patt|<=1"
+                + (" except |patt|=|perm|=2 where R has <=1 or >=8 cells; |perm|=3 with <=1/>=15 cells x "
+                   "|patt|<=2 (|patt|=2: <=1/>=8 cells)"
                    if quick else "; |perm|=3 with <=2/>=14 cells x |patt|<=2 (|patt|=2: <=2/>=7 cells)")
                 + "; two shadings: all pairs for |patt|<=1, |perm|<=1 and |perm|=2 with <=1/>=8 cells"),
         }
-        ctx.section("private", evaluations=ctx.evals - e0, learned_entries=len(_ENTRIES))
-    if want("auto"):
-        e0 = ctx.evals
-        _profiles()
-        plan = auto_plan(quick)
-        res = ctx.pmap(shard_auto, plan)
-        ctx.bounds["auto"] = {"inputs": [[s, f] for s, f in plan],
-                              "checked_on": "every permutation of length <= 8 (46 234)",
-                              "answers": sum(1 for r in res if r is not None)}
-        ctx.extra["auto_descriptions"] = [[plan[i][0], plan[i][1], res[i]] for i in range(len(plan))]
-        ctx.section("auto", evaluations=ctx.evals - e0, answers=sum(1 for r in res if r is not None))
+        section("private", learned_entries=len(_ENTRIES))
+    ctx.bounds["clean_up"] = ("run_clean_up with limit_monitors in {0, k0, k0+1} on every output with <= %d "
+                              "initial monitors and <= %d learned patterns" % (MON_CAP, PATT_CAP))
+
+
+def shard_any(job):
+    """Dispatcher so that one pool works on all families at once."""
+    import time
+    fam, fname, shard = job
+    t0 = time.process_time()
+    res = globals()[fname](shard)
+    part, payload = res if isinstance(res, tuple) else (res, None)
+    part.counters.pop("cpu_ms", None)
+    part.bump("cpu_ms_" + fam, int(1000 * (time.process_time() - t0)))
+    part.bump("evaluations_" + fam, part.evals)
+    # violations travel in the payload: the parent keeps the first few of EVERY sub-check (the
+    # shared merge keeps the first 400 of a run, which one noisy sub-check can fill)
+    viols, nviol = part.viols, part.nviol
+    part.viols, part.nviol = [], 0
+    return part, (payload, viols, nviol)
+
+
+PER_SUB = 6
+
+
+def take_violations(ctx, results):
+    """results: payloads of shard_any in job order (simplest first).  Re-reports the first PER_SUB
+    violations of every sub-check; returns the inner payloads."""
+    kept = {}
+    out = []
+    for res in results:
+        if res is None:          # shard aborted by a library exception: reported by the pool itself
+            out.append(None)
+            continue
+        payload, viols, nviol = res
+        out.append(payload)
+        ctx.nviol += nviol
+        for v in viols:
+            k = kept.setdefault(v["sub"], [])
+            if len(k) < PER_SUB:
+                k.append(v)
+    for sub in sorted(kept):
+        ctx.viols.extend(kept[sub])
+    return out
 
 
 # --------------------------------------------------------------------------------------------
